@@ -466,7 +466,7 @@ def run(ctx) -> None:
     for c in FIXED:
         nt = check_case(ctx, c)
         ctx.case(repr(c), nontrivial=nt, cls="fixed-example")
-    parallel(ctx, _hyp_shard, [(ctx.n(250, 4000),)] * 16)
+    parallel(ctx, _hyp_shard, [(ctx.n(200, 4000),)] * 16)
 
 
 def replay(ctx, case) -> None:
